@@ -17,8 +17,8 @@ SPEC = {
     "assumptions": [
         "Coverage format 1 glyph arrays are strictly increasing (std binary_search is modelled as 'position of the glyph')",
         "glyph vectors hold fewer than 2^62 elements (Rust Vec capacity); sequence tables hold fewer than 65536 glyphs",
-        "tuple = None (no feature variations), Features::Custom; the Features::Mask path (script-specific shapers, "
-        "FRAC split, lookup cache) is not modelled",
+        "tuple = None (no feature variations); Features::Custom, and Features::Mask for scripts of ScriptType::Default "
+        "without the frac bit (the FRAC split and the script-specific shapers are not modelled)",
         "GDEF tables are readable (a mark glyph set coverage with start > end makes GDEFTable::read fail)",
     ],
     "rule": "random abstract GSUB programs: 1-5 lookups of types 1,2,3,4,5,6,8 (every subtable format, coverage "
@@ -27,7 +27,7 @@ SPEC = {
             "filtering sets, nested lookup records incl. out-of-range and contextual-in-contextual), GDEF with "
             "glyph classes / mark attachment classes / 0-3 mark sets (or none), script/langsys/feature lists; glyph "
             "strings of 0-12 glyphs assembled from instances of the program's own rules interleaved with random "
-            "glyphs; run either gsub::apply(Features::Custom) or gsub_apply_lookup with whole-run / sub-window / "
+            "glyphs; contextual lookups get overlapping subtables whose rule instances carry glyphs the lookup skips between input glyphs; feature tables share (non-idempotent) lookups; run gsub::apply(Features::Custom), gsub::apply(Features::Mask) or gsub_apply_lookup with whole-run / sub-window / "
             "out-of-range windows; distinct = distinct input lines; class histogram = run kind (A or L<lookup "
             "type>) / result (changed, same, err, panic)",
 }
